@@ -132,7 +132,7 @@ def resize(input, oshape, ishift=None, oshift=None):
 
     ishape1, oshape1 = _expand_shapes(input.shape, oshape)
 
-    if ishape1 == oshape1:
+    if ishape1 == oshape1 and ishift is None and oshift is None:
         return input.reshape(oshape)
 
     if ishift is None:
